@@ -93,4 +93,10 @@ theorem source_ceil_div_is_the_model (a b : Nat) (ha : 1 ≤ a) :
     Generated.Src.ceilDiv (a := a) (b := b) = ((ceilDiv a b : Nat) : Int) :=
   Source.ceilDiv_eq_model a b ha
 
+/-- TRANSLATED SOURCE. The per-axis chunk count of `scale-stats` as it stands in /repo's source is the count of
+    chunks the conversion loops write along that axis (`Tiling.count`) -/
+theorem source_chunk_count_is_the_model (s c : Nat) (hs : 1 ≤ s) :
+    Generated.Src.statsChunksPerAxis (s := s) (cs := c) = ((Tiling.count s c : Nat) : Int) :=
+  Source.statsCount_eq_model s c hs
+
 end NgVerif.Props.C20
